@@ -72,10 +72,11 @@ type TermStore struct {
 	nextID int
 	nvars  int
 	ufs    map[string]string // name -> declaration (emitted lazily)
+	ub     map[int]uint64    // known upper bounds of variables (from path assumptions v < c / v <= c)
 }
 
 func NewTermStore() *TermStore {
-	return &TermStore{tab: map[termKey]*Term{}, ufs: map[string]string{}}
+	return &TermStore{tab: map[termKey]*Term{}, ufs: map[string]string{}, ub: map[int]uint64{}}
 }
 
 func mask(w int) uint64 {
@@ -285,6 +286,18 @@ func (ts *TermStore) Ite(c, x, y *Term) *Term {
 		}
 		return ts.Not(c)
 	}
+	if x.w == 0 {
+		switch {
+		case y.IsFalse():
+			return ts.And(c, x)
+		case x.IsTrue():
+			return ts.Or(c, y)
+		case x.IsFalse():
+			return ts.And(ts.Not(c), y)
+		case y.IsTrue():
+			return ts.Or(ts.Not(c), x)
+		}
+	}
 	return ts.mk(OpIte, x.w, []*Term{c, x, y}, 0, "", 0, 0)
 }
 
@@ -384,6 +397,12 @@ func (ts *TermStore) bin(op Op, x, y *Term) *Term {
 		rw = 0
 		if x == y {
 			return ts.Bool(op == OpULe || op == OpSLe)
+		}
+		// v+a vs v+b where v is known (by a path assumption) to be small enough that neither side wraps
+		if (op == OpULt || op == OpULe) && w == 64 {
+			if r, ok := ts.cmpSameBase(op, x, y); ok {
+				return ts.Bool(r)
+			}
 		}
 		// zero-extended narrow value against a large constant
 		if (op == OpULt || op == OpULe) && x.op == OpZExt && y.IsConst() && x.args[0].w < 64 {
@@ -763,4 +782,78 @@ func (ts *TermStore) fromLin(l *lin) *Term {
 		}
 	}
 	return acc
+}
+
+// NoteAssumed records bounds implied by an assumed condition (only v < c and v <= c on plain variables).
+func (ts *TermStore) NoteAssumed(c *Term) {
+	switch c.op {
+	case OpAnd:
+		ts.NoteAssumed(c.args[0])
+		ts.NoteAssumed(c.args[1])
+	case OpULt, OpULe:
+		v, k := c.args[0], c.args[1]
+		if v.op == OpVar && k.IsConst() {
+			b := k.cval
+			if c.op == OpULt {
+				if b == 0 {
+					return
+				}
+				b--
+			}
+			if old, ok := ts.ub[v.id]; !ok || b < old {
+				ts.ub[v.id] = b
+			}
+		}
+	case OpNot:
+		// not (c < v)  ==  v <= c
+		if in := c.args[0]; in.op == OpULt && in.args[0].IsConst() && in.args[1].op == OpVar {
+			if old, ok := ts.ub[in.args[1].id]; !ok || in.args[0].cval < old {
+				ts.ub[in.args[1].id] = in.args[0].cval
+			}
+		}
+	}
+}
+
+// cmpSameBase decides v+a < v+b (or <=) when both sides are the same variable plus constants and the
+// variable's known upper bound rules out wrap-around.
+func (ts *TermStore) cmpSameBase(op Op, x, y *Term) (bool, bool) {
+	lx, ly := ts.toLin(x, 0), ts.toLin(y, 0)
+	if lx == nil || ly == nil {
+		return false, false
+	}
+	one := func(l *lin) (int, bool) {
+		id := -1
+		for k, c := range l.coef {
+			if c == 0 {
+				continue
+			}
+			if c != 1 || id != -1 {
+				return -1, false
+			}
+			id = k
+		}
+		return id, id != -1
+	}
+	ix, okx := one(lx)
+	iy, oky := one(ly)
+	if !okx || !oky || ix != iy {
+		return false, false
+	}
+	v := lx.atom[ix]
+	if v.op != OpVar {
+		return false, false
+	}
+	ub, ok := ts.ub[v.id]
+	if !ok {
+		return false, false
+	}
+	a, b := lx.c, ly.c
+	const lim = uint64(1) << 62
+	if ub >= lim || a >= lim || b >= lim {
+		return false, false
+	}
+	if op == OpULt {
+		return a < b, true
+	}
+	return a <= b, true
 }
